@@ -104,6 +104,8 @@ struct Shared {
     ended: bool,
     after_end: usize,
     snapshot: Option<(PathBuf, bool)>,
+    /// what one send costs on the simulated clock (ms): sending is not instantaneous
+    send_cost_ms: u64,
 }
 
 struct Scripted {
@@ -117,6 +119,9 @@ impl Socket for Scripted {
         let mut sh = self.sh.lock().unwrap();
         if sh.ended {
             sh.after_end += 1;
+        }
+        if sh.send_cost_ms > 0 {
+            tftpd::verif::advance(Duration::from_millis(sh.send_cost_ms));
         }
         let s = match p {
             Packet::Data { block_num, data } => format!("D{}:{}:{}", block_num, data.len(), fnv(data)),
@@ -236,7 +241,13 @@ pub fn snd_line(toks: &[&str]) -> String {
     };
     let chk = toks[5] == "1";
     let mut script = VecDeque::new();
+    let mut send_cost_ms = 0u64;
     for e in &toks[7..] {
+        // `S<ms>`: every send advances the simulated clock (a burst takes time; in duplicate mode 1 ms per copy for real)
+        if let Some(ms) = e.strip_prefix('S').and_then(|x| x.parse::<u64>().ok()) {
+            send_cost_ms = ms;
+            continue;
+        }
         let Some(ev) = parse_sev(tmo, e) else { return "bad-op".into() };
         script.push_back(ev);
     }
@@ -249,6 +260,7 @@ pub fn snd_line(toks: &[&str]) -> String {
         ended: false,
         after_end: 0,
         snapshot: None,
+        send_cost_ms,
     }));
     let sock = Scripted { sh: sh.clone() };
     let worker = Worker::new(Box::new(sock), path.clone(), true, b, Duration::from_millis(tmo), w, rep);
@@ -322,6 +334,7 @@ pub fn rcv_line(toks: &[&str]) -> String {
         ended: false,
         after_end: 0,
         snapshot: Some((path.clone(), full)),
+        send_cost_ms: 0,
     }));
     let sock = Scripted { sh: sh.clone() };
     let worker = Worker::new(Box::new(sock), path.clone(), clean, b, Duration::from_secs(5), w, rep);
@@ -403,7 +416,7 @@ pub fn dupwrq_line(toks: &[&str]) -> String {
         let hi = std::cmp::min(lo + b, content.len());
         script.push_back(Ev::Deliver(Packet_::Data(((k + 1) % 65536) as u16, content[lo..hi].to_vec()), 0));
     }
-    let sh = Arc::new(Mutex::new(Shared { script, groups: vec![], exhausted: false, ended: false, after_end: 0, snapshot: None }));
+    let sh = Arc::new(Mutex::new(Shared { script, groups: vec![], exhausted: false, ended: false, after_end: 0, snapshot: None, send_cost_ms: 0 }));
     let wb = Worker::new(Box::new(Scripted { sh: sh.clone() }), path.clone(), clean, b, Duration::from_secs(5), w, 1);
     let sb = run_and_classify(sh.clone(), move || wb.receive().unwrap());
     let after_b = match std::fs::read(&path) {
